@@ -33,7 +33,30 @@ type tcase struct {
 	avail  int32
 	reenc  []byte
 	reOut  vh.Outcome
-	errExp bool // the encoding is outside the format (array too long): both sides must reject it
+	errExp bool   // the encoding is outside the format (array too long): both sides must reject it
+	hseed  uint64 // non-zero: the implementation value is built through a mutation history (vg.ToGoH) from this seed
+}
+
+func build(v *vg.V, hseed uint64) value.Value {
+	if hseed == 0 {
+		return v.ToGo()
+	}
+	return v.ToGoH(vh.NewRng(hseed))
+}
+
+// roundtripFails: decode(encode v) differs from v when v is built plainly (hseed 0) or through a history
+func roundtripFails(n *vg.V, hseed uint64) bool {
+	x := &tcase{v: n, line: n.Line(), hseed: hseed}
+	runImpl(x)
+	return x.wOut.OK() && x.rOut.OK() && x.back != x.line
+}
+
+// historySeeds: a few seeds derived from the failing case's, to re-try a history on a sub-value
+func historySeeds(h uint64) []uint64 {
+	if h == 0 {
+		return []uint64{0}
+	}
+	return []uint64{0, h, h + 2, h + 4, h + 6, h + 8, h + 10, h + 12, h + 14}
 }
 
 func encode(g value.Value) []byte {
@@ -45,7 +68,7 @@ func encode(g value.Value) []byte {
 func runImpl(c *tcase) {
 	var g value.Value
 	c.wOut = vh.Guard(func() {
-		g = c.v.ToGo()
+		g = build(c.v, c.hseed)
 		c.bytes = encode(g)
 	})
 	if !c.wOut.OK() {
@@ -83,7 +106,7 @@ func main() {
 	env, rep := vh.Parse("C02")
 	rng := vh.NewRng(env.Seed)
 	rep.Rule = "a case is one generated value tree (all 20 implemented type codes, depth<=6 quick / 12 thorough, boundary-biased scalars, " +
-		"wide and hash-colliding maps) plus 0-3 trailing bytes; non-trivial = its encoding is longer than one byte; distinct by one-line form"
+		"wide and hash-colliding maps; 60% of the values are built on the Go side through a random mutation history: junk+Clear rounds over the same / bucket-0 / colliding keys, placeholder+overwrite, PutString/PutLong/NewList, PutAll, Add/Set) plus 0-3 trailing bytes; non-trivial = its encoding is longer than one byte; distinct by one-line form"
 
 	var cases []*tcase
 	var flush0 func()
@@ -154,7 +177,7 @@ func main() {
 		totalLines += len(lines)
 
 		replayOf := func(c *tcase, extra map[string]interface{}) map[string]interface{} {
-			m := map[string]interface{}{"value": vh.Clip(c.v.LineX(), 4000), "rest": vh.Hex(c.rest)}
+			m := map[string]interface{}{"value": vh.Clip(c.v.LineX(), 4000), "rest": vh.Hex(c.rest), "history_seed": c.hseed}
 			if len(c.line) > 4000 {
 				m["value_truncated"] = true
 			}
@@ -249,14 +272,30 @@ func main() {
 				continue
 			}
 			if c.back != c.line {
+				// smallest sub-value that shows it, built plainly if that suffices, else through a history
+				how, hs := "", uint64(0)
 				bad := shrink(c.v, func(n *vg.V) bool {
-					x := &tcase{v: n, line: n.Line()}
-					runImpl(x)
-					return x.wOut.OK() && x.rOut.OK() && x.back != x.line
+					for _, h := range historySeeds(c.hseed) {
+						if roundtripFails(n, h) {
+							return true
+						}
+					}
+					return false
 				})
-				rep.Fail("property", "ReadValue:"+kindPath(bad)+":roundtrip-differs",
-					"decode(encode v) differs from v (type, content or order): got "+vh.Clip(c.back, 300),
-					replayOf(c, map[string]interface{}{"smallest": vh.Clip(bad.Line(), 2000), "decoded": vh.Clip(c.back, 2000)}))
+				for _, h := range historySeeds(c.hseed) {
+					if roundtripFails(bad, h) {
+						hs = h
+						break
+					}
+				}
+				what := ""
+				if hs != 0 {
+					how = "-after-history"
+					what = " for a value built by a Put/Clear/overwrite/PutAll/Set history"
+				}
+				rep.Fail("property", "ReadValue:"+kindPath(bad)+":roundtrip-differs"+how,
+					"decode(encode v) differs from v (type, content or order)"+what+": got "+vh.Clip(c.back, 300),
+					replayOf(c, map[string]interface{}{"smallest": vh.Clip(bad.LineX(), 2000), "smallest_history_seed": hs, "decoded": vh.Clip(c.back, 2000)}))
 			}
 			if int(c.avail) != len(c.rest) {
 				rep.Fail("property", "ReadValue:"+kindPath(c.v)+":consumed", fmt.Sprintf("Available() after decoding = %d, expected %d", c.avail, len(c.rest)), replayOf(c, nil))
@@ -307,6 +346,7 @@ func main() {
 			}
 			totalLines += len(second)
 			k := 0
+			viaHistory := map[*vg.V]bool{}
 			for _, p := range pends {
 				var best *vg.V
 				var bestModel, bestImpl string
@@ -314,8 +354,18 @@ func main() {
 					m := outs2[k]
 					k++
 					var b []byte
-					o := vh.Guard(func() { b = encode(s.ToGo()) })
-					if !o.OK() || vh.Hex(b) == m {
+					differs := false
+					for _, h := range historySeeds(p.c.hseed) {
+						o := vh.Guard(func() { b = encode(build(s, h)) })
+						if o.OK() && vh.Hex(b) != m {
+							differs = true
+							if h != 0 {
+								viaHistory[s] = true
+							}
+							break
+						}
+					}
+					if !differs {
 						continue
 					}
 					if best == nil || s.Nodes() < best.Nodes() || (s.Nodes() == best.Nodes() && len(s.Line()) < len(best.Line())) {
@@ -325,7 +375,11 @@ func main() {
 				if best == nil {
 					best = p.c.v
 				}
-				rep.Fail("property", "WriteValue:"+kindPath(best)+":bytes-differ-from-reference",
+				how := ""
+				if viaHistory[best] || (bestImpl == "" && p.c.hseed != 0) {
+					how = "-after-history"
+				}
+				rep.Fail("property", "WriteValue:"+kindPath(best)+":bytes-differ-from-reference"+how,
 					"the bytes written differ from what the reference encoder of the format emits",
 					replayOf(p.c, map[string]interface{}{"smallest": vh.Clip(best.Line(), 2000), "implementation": vh.Clip(bestImpl, 2000), "reference": vh.Clip(bestModel, 2000)}))
 			}
@@ -343,6 +397,7 @@ func main() {
 			Cases []struct {
 				Value string `json:"value"`
 				Rest  string `json:"rest"`
+				HSeed uint64 `json:"history_seed"`
 			} `json:"cases"`
 		}
 		if err := json.Unmarshal(b, &rf); err != nil {
@@ -356,7 +411,7 @@ func main() {
 			if err != nil {
 				vh.Die("replay value: %v", err)
 			}
-			add(v, vh.UnHex(rc.Rest))
+			add(v, vh.UnHex(rc.Rest)).hseed = rc.HSeed
 		}
 	} else {
 		n := 4000
@@ -424,7 +479,24 @@ func main() {
 			if rng.Chance(50) {
 				rest = rng.Bytes(1 + rng.Intn(3))
 			}
-			add(v, rest)
+			c := add(v, rest)
+			if rng.Chance(60) {
+				c.hseed = rng.U64() | 1
+				rep.Count("built-by-history")
+			}
+		}
+		// small maps and lists over bucket-0 / colliding keys, always through a history
+		{
+			g3 := vg.New(rng.Fork(), vg.Opt{Depth: 3, Width: 5, Nil: true})
+			nh := 600
+			if env.Thorough {
+				nh = 6000
+			}
+			for i := 0; i < nh; i++ {
+				c := add(g3.Container([]string{"m", "im", "im", "l"}[rng.Intn(4)], 2+rng.Intn(2)), nil)
+				c.hseed = rng.U64() | 1
+				rep.Count("built-by-history")
+			}
 		}
 		// outside the format: arrays longer than the signed 16-bit count; writer wraps, reader must reject
 		for _, k := range vg.ArrayKinds {
@@ -449,7 +521,7 @@ func main() {
 	flush(true)
 
 	g1, g2 := vg.CollidingGroups()
-	rep.Note("colliding string keys: %d groups of >=%d strings with equal hash index modulo 101 and 203", g1, g2)
+	rep.Note("colliding string keys: %d groups of >=%d strings with equal hash index modulo 101 and 203; %d strings in bucket 0", g1, g2, vg.ZeroBucketStrings())
 	rep.Note("%s", strings.TrimSpace(fmt.Sprintf("cases=%d driver lines=%d", nDone, totalLines)))
 	rep.Write(env.Out)
 }
